@@ -5,6 +5,7 @@ mod case;
 mod fam;
 mod fe;
 mod gen;
+mod malform;
 mod minimise;
 mod refcodec;
 mod rng;
